@@ -348,6 +348,7 @@ func (x *wl) enumerate(depth int) {
 			}
 			served := x.restartAndCheck(fmt.Sprintf("k=%d/%d %s dir=%+v", k, n, ch.name, ch.dir), bi, ii, di, cr, depth)
 			x.w.Count("restarts", 1)
+			x.w.AddEvaluations(1)
 			if lossy || served > 0 {
 				x.w.Distinct(fmt.Sprintf("%d|%d|%d|%s", x.w.Index, x.c.Index, k, ch.name))
 			}
